@@ -118,6 +118,9 @@ func (w *World) seedsForParam(t types.Type, variadic bool) []nilSeed {
 		return out
 	}
 	if i := w.itemLikeIface(t); i != nil {
+		// (an item list handed over AS an Item with a nil-like member was tried as a further seed class: the abstract
+		// runs of Contains/ItemsEqual/GobEncode on it do not converge within the step bound, so it is not armed; list
+		// parameters and list receivers are seeded directly)
 		return elemSeeds(i)
 	}
 	// list parameters: ItemCollection and friends (slices of an item-like interface)
@@ -172,6 +175,11 @@ func (w *World) c20Helpers() []*ssa.Function {
 			}
 		}
 		has := false
+		if recv := sig.Recv(); recv != nil {
+			if _, isSlice := types.Unalias(recv.Type()).Underlying().(*types.Slice); isSlice && len(w.seedsForParam(recv.Type(), false)) > 0 {
+				has = true // methods of the list types: the receiver itself is the list with a nil-like member
+			}
+		}
 		for i := 0; i < sig.Params().Len(); i++ {
 			variadic := sig.Variadic() && i == sig.Params().Len()-1
 			if len(w.seedsForParam(sig.Params().At(i).Type(), variadic)) > 0 {
@@ -272,9 +280,19 @@ func checkC20(w *World, c *Check, tier string) {
 		if sig.Recv() != nil {
 			nrecv = 1
 		}
-		for pi := 0; pi < sig.Params().Len(); pi++ {
-			p := sig.Params().At(pi)
-			variadic := sig.Variadic() && pi == sig.Params().Len()-1
+		first := 0
+		if nrecv == 1 {
+			if _, isSlice := types.Unalias(sig.Recv().Type()).Underlying().(*types.Slice); isSlice {
+				first = -1 // the receiver of a list type is seeded like a list parameter
+			}
+		}
+		for pi := first; pi < sig.Params().Len(); pi++ {
+			p := sig.Recv()
+			variadic := false
+			if pi >= 0 {
+				p = sig.Params().At(pi)
+				variadic = sig.Variadic() && pi == sig.Params().Len()-1
+			}
 			seeds := w.seedsForParam(p.Type(), variadic)
 			if len(seeds) == 0 {
 				continue
@@ -290,7 +308,9 @@ func checkC20(w *World, c *Check, tier string) {
 			var order []string
 			for _, sd := range seeds {
 				args := make([]AV, 0, nrecv+sig.Params().Len())
-				if nrecv == 1 {
+				if nrecv == 1 && pi == -1 {
+					args = append(args, sd.av)
+				} else if nrecv == 1 {
 					args = append(args, defaultArg(sig.Recv().Type(), "recv"))
 				}
 				for qi := 0; qi < sig.Params().Len(); qi++ {
@@ -350,7 +370,12 @@ func checkC20(w *World, c *Check, tier string) {
 		return
 	}
 	itemT := w.Types.Scope().Lookup("Item").Type()
-	kinds := w.seedsForParam(itemT, false)
+	var kinds []nilSeed
+	for _, k := range w.seedsForParam(itemT, false) {
+		if !strings.HasPrefix(k.class, "item-") { // a list that merely holds a nil-like member is not itself nil-like
+			kinds = append(kinds, k)
+		}
+	}
 	// plus nil lists held in the interface
 	for _, ln := range []string{"ItemCollection", "IRIs"} {
 		if n := w.Named(ln); n != nil {
